@@ -496,7 +496,7 @@ def run_cell(h, cell, tier, seed, budget_s):
         for (label, sig), lst in groups.items():
             confirmed = 0
             for v, ctx in lst[:4]:
-                r = _replay_violation(h, cell, v, ctx)
+                r = _replay_violation(h, cell, v, ctx, want_sig=sig)
                 if r["reproduced"]:
                     confirmed += 1
                     r["paths_violating"] = len(lst)
@@ -563,7 +563,7 @@ def _margin_model(ctx, v):
     return None
 
 
-def _replay_violation(h, cell, v, ctx):
+def _replay_violation(h, cell, v, ctx, want_sig=None):
     models = []
     mm = _margin_model(ctx, v)
     if mm is not None:
@@ -602,6 +602,18 @@ def _replay_violation(h, cell, v, ctx):
         rec["real_outputs"] = _js(out_c)
         rec["uf_table"] = _js(memo)
         hit = [f for f in fails if f[0] == v.label]
+        if hit and want_sig is not None:
+            # several assertions may share a label: report the failure that belongs to *this* violation (its own
+            # signature), not the first one with the label -- otherwise a listed known finding would mask a new one
+            def _s(f):
+                try:
+                    return _sig(h, v.label, to_float(inp_exact), cell, f[1])
+                except Exception:  # noqa
+                    return None
+
+            same = [f for f in hit if _s(f) == want_sig]
+            if same:
+                hit = same
         if hit:
             rec["reproduced"] = True
             rec["failure"] = _js(hit[0][1])
